@@ -276,6 +276,11 @@ def random_cases(family, rng, count):
             xs2, ys2 = rseries(rng, 2, 12, den=2)
             out.append({"fn": "trend", "x": [R(v) for v in xs2], "y": [R(v) for v in ys2], "c": c, "normalized": rng.random() < 0.5,
                         "container": rng.choice(["array", "list", "series"])})
+            if rng.random() < 0.4:
+                # the same polynomial written in coefficient form with a reduction (np.dot(c, t ** [0, 1, 2])): a legal scalar callable
+                # that returns ONE number even when it is handed a whole axis of exactly three samples (seed C14k: "vectorised" trend)
+                xs3, ys3 = rseries(rng, 3, 3 if rng.random() < 0.7 else 6, den=2)
+                out.append({"fn": "trend", "x": [R(v) for v in xs3], "y": [R(v) for v in ys3], "c": c, "normalized": rng.random() < 0.5, "form": "dot"})
             # the same request after the series was made denser than its reference and then cut (seed C14i: the span of the
             # reference used for the normalised argument)
             n2 = len(xs2)
